@@ -33,6 +33,9 @@ func main() {
 		runApply(os.Args[2:])
 	case "wal":
 		runWal(os.Args[2:])
+	case "codec":
+		setupLogger()
+		runCodec(os.Args[2:])
 	default:
 		fmt.Fprintln(os.Stderr, "unknown engine", os.Args[1])
 		os.Exit(2)
